@@ -5,7 +5,7 @@ CONSTANTS
   Cap <- MCCap
   Mode = "shadow"
   Lazy = TRUE
-  MaxOps = 3
+  MaxOps = 2
   MaxHeld = 1
   OpSet = {"debit", "local", "retain", "finish"}
   Atomic = FALSE
